@@ -145,19 +145,26 @@ def treeLine (st : TState) (e : SExp) : TState × String :=
     | some id => treeAct st (.unstall id)
     | none => (st, "bad unstall")
   | .list [.atom "sip", .atom id, evs] =>
-    -- a slow plain subscriber reads a few events and stops again: they must be the head of what it was offered
+    -- a slow plain subscriber reads a few events and stops again. They must come from the head of what it was
+    -- offered: per key a prefix of that key's events (the read may stop in the middle of a batch, whose order
+    -- is free), and nothing that was not offered; what is left stays in the model's buffer
     match id.toNat?, decEvs evs with
     | some id, some ievs =>
       let mevs := st.sys.pendingOf id
-      let k := ievs.length
-      let (bk, batch) := st.sys.boundaryOf id
-      let okHead := sameUpToBatchOrder (mevs.take k) ievs ||
-        -- the head reaches into the batch during which the buffer ran full: that batch's order is free
-        (!batch.isEmpty && k > bk && sameUpToBatchOrder (mevs.take bk) (ievs.take bk) &&
-          (ievs.drop bk).all (fun e => countEv e (ievs.drop bk) ≤ countEv e batch))
-      if !okHead then
-        ({ st with dead := true }, s!"reject C05/C10 slow sub node {id} read {showEvs ievs}, the head of what it was offered is {showEvs (mevs.take k)}")
-      else ({ st with sys := st.sys.sip id k }, "ok")
+      let keys := (ievs.map (·.obj.key)).eraseDups
+      let prefixOk := keys.all (fun k =>
+        let x := perKey ievs k; let y := perKey mevs k
+        x.length ≤ y.length && (x.zip y).all (fun p => evEq p.1 p.2))
+      -- the events read lie within the first (k + one batch) of the buffer: a batch has at most 2 x keys events
+      let within := ievs.all (fun e => ((mevs.take (ievs.length + 8)).filter (evEq e)).length > 0)
+      if !(prefixOk && within) then
+        ({ st with dead := true }, s!"reject C05/C10 slow sub node {id} read {showEvs ievs}, the head of what it was offered is {showEvs (mevs.take ievs.length)}")
+      else
+        let rest := ievs.foldl (fun (m : List (Ev Obj)) e =>
+          match m.findIdx? (evEq e) with
+          | some i => m.eraseIdx i
+          | none => m) mevs
+        ({ st with sys := st.sys.sipTo id rest }, "ok")
     | _, _ => (st, "bad sip")
   | .list [.atom "instant", .atom id, .atom n] =>
     match id.toNat?, n.toNat? with
